@@ -22,7 +22,7 @@ ORACLES = ('store', 'confined', 'selection', 'listing', 'dedup', 'near_miss')
 
 
 def gen_case(seed, tier):
-    return history.gen_history(seed, 'c06', max_users=4 if tier == 'thorough' else 3, encrypted=True, nops=(4, 24) if tier == 'thorough' else (4, 12), destructive=True, wrong_unlock=True,
+    return history.gen_history(seed, 'c06', max_users=4 if tier == 'thorough' else 3, encrypted=True, nops=(4, 24) if tier == 'thorough' else (4, 12), destructive=True, wrong_unlock=True, crash_snapshots=True,
                                foreign_delete=True, reads=True)
 
 
